@@ -21,6 +21,12 @@ from pysrc import Fn, World, Untranslatable, _methods
 from pysrc_act import TrAct
 
 LEAN_TYPE = pysrc.LEAN_TYPE
+
+
+def pysrc_str(x):
+    return '"' + x.replace("\\", "\\\\").replace('"', '\\"') + '"'
+
+
 LEAN_TYPE.update({"Y": "Load.Y", "YList": "List Load.Y", "Loader": "Unit", "NatList": "List Nat", "YMap": "List (Load.Y × Load.Y)",
                   "TopoL": "List (List Int)", "IntList": "List Int", "PyInt": "Int", "IntPair": "Int × Int"})
 
@@ -32,8 +38,34 @@ class TrLoad(TrAct):
             return node.value
         return None
 
+    def expr_compare2(self, e, env):
+        return self.compare(e, env)
+
+    def kconst(self, node, env):
+        """a dictionary key that is a constant at translation time: a literal, `u.NAME`, or the key variable of an
+        unrolled loop over one of the module's key tables"""
+        if isinstance(node, ast.Name) and env.get(node.id, ("",))[0] == "strconst":
+            return env[node.id][1]
+        return self.const_key(node)
+
     def expr(self, e, env):
+        if isinstance(e, ast.Compare) and len(e.ops) == 2:
+            return self.compare(e, env)
+        if isinstance(e, ast.Name) and e.id == "VALID_ACCESS_VALUES" and e.id not in env:
+            return "VALID_ACCESS_VALUES", "YList"
+        if isinstance(e, ast.Subscript) and isinstance(e.value, ast.Name) and e.value.id == "ACCESS_LEVEL_MAP":
+            o, t = self.expr(e.slice, env)
+            return f"(ACCESS_LEVEL_MAP {o})", "Y"
+        if isinstance(e, ast.Subscript) and isinstance(e.value, ast.Name) and ast.unparse(e.value) in getattr(self, "known_maps", set()):
+            key = self.kconst(e.slice, env)
+            if key is not None:
+                o, _ = self.expr(e.value, env)
+                return f"(PyRt.ymapGet {o} {pysrc_str(key)})", "Y"
         if isinstance(e, ast.Attribute) and isinstance(e.value, ast.Name) and e.value.id == "self":
+            if e.attr == "os":
+                return "os", "YList"
+            if e.attr == "processes":
+                return "processes", "YList"
             if e.attr == "subnets":
                 return "subnets", "NatList"
             if e.attr == "services":
@@ -53,6 +85,26 @@ class TrLoad(TrAct):
 
     def compare(self, e, env):
         op, l, r = e.ops[0], e.left, e.comparators[0]
+        # k in e  (constant key of a known dictionary)
+        if isinstance(op, (ast.In, ast.NotIn)) and isinstance(r, ast.Name) and r.id in getattr(self, "known_maps", set()):
+            key = self.kconst(l, env)
+            if key is not None:
+                o, _ = self.expr(r, env)
+                s_ = f"(PyRt.ymapHas {o} {pysrc_str(key)})"
+                return (s_ if isinstance(op, ast.In) else f"(!{s_})"), "Bool"
+        # str(x).lower() == "none"
+        if isinstance(op, ast.Eq) and isinstance(r, ast.Constant) and r.value == "none" and isinstance(l, ast.Call) \
+                and ast.unparse(l.func).endswith(".lower") and isinstance(l.func.value, ast.Call) \
+                and ast.unparse(l.func.value.func) == "str":
+            o, t = self.expr(l.func.value.args[0], env)
+            if t == "Y":
+                return f"(PyRt.lowerIsNone {o})", "Bool"
+        # 0 <= x <= 1.0
+        if len(e.ops) == 2 and all(isinstance(o_, ast.LtE) for o_ in e.ops) and self.ynum(e.left) == 0 \
+                and isinstance(e.comparators[1], ast.Constant) and e.comparators[1].value in (1, 1.0):
+            o, t = self.expr(e.comparators[0], env)
+            if t == "Y" and self.guarded(e.comparators[0]):
+                return f"((PyRt.yge {o} (0 : Int)) && (PyRt.yle {o} (1 : Int)))", "Bool"
         # type(x) is int / is not int / != list
         if isinstance(l, ast.Call) and ast.unparse(l.func) == "type" and len(l.args) == 1 and isinstance(r, ast.Name):
             x, t = self.expr(l.args[0], env)
@@ -87,6 +139,8 @@ class TrLoad(TrAct):
             return f"(decide ({a} ≤ {b}))", "Bool"
         if ta == "Y" and tb == "Y" and isinstance(op, ast.Eq):
             return f"({a}.pyEq {b})", "Bool"
+        if isinstance(op, (ast.Is, ast.IsNot)) and ta == "Y" and isinstance(r, ast.Constant) and r.value is None:
+            return (f"{a}.isNull" if isinstance(op, ast.Is) else f"(!{a}.isNull)"), "Bool"
         if isinstance(op, (ast.In, ast.NotIn)) and ta == "Str" and tb == "YMap":
             s_ = f"(getKey {b} {a}).isSome"
             return (f"({s_})" if isinstance(op, ast.In) else f"(!{s_})"), "Bool"
@@ -149,6 +203,18 @@ class TrLoad(TrAct):
             o, t = self.expr(f.value, env)
             if t == "YMap":
                 return f"({o}.map (·.2))", "YList"
+        if text == "isinstance" and len(e.args) == 2 and isinstance(e.args[1], ast.Name) \
+                and env.get(e.args[1].id, ("",))[0] == "pytype":
+            o, t = self.expr(e.args[0], env)
+            ty = env[e.args[1].id][1]
+            test = {"str": f"{o}.isStr", "number": f"{o}.toRat?.isSome", "strOrInt": f"({o}.isStr || {o}.intLike?.isSome)",
+                    "list": f"{o}.isList", "map": f"{o}.isMap", "int": f"{o}.intLike?.isSome"}.get(ty) \
+                or self.err(e, f"isinstance with table type {ty}")
+            return f"({test})", "Bool"
+        if text == "isinstance" and len(e.args) == 2 and isinstance(e.args[1], ast.Name) and e.args[1].id in ("dict", "str"):
+            o, t = self.expr(e.args[0], env)
+            if t == "Y":
+                return (f"({o}.isMap)" if e.args[1].id == "dict" else f"({o}.isStr)"), "Bool"
         if text == "isinstance" and len(e.args) == 2 and isinstance(e.args[1], ast.Name):
             o, t = self.expr(e.args[0], env)
             if t == "Y":
@@ -192,6 +258,20 @@ class TrLoad(TrAct):
 
     def assign(self, tgt, value, env, nxt, ind):
         pad = "  " * ind
+        if isinstance(tgt, ast.Subscript) and isinstance(tgt.value, ast.Name) and tgt.value.id in getattr(self, "known_maps", set()):
+            key = self.kconst(tgt.slice, env)
+            if key is None:
+                self.err(tgt, "store under a key that is not a constant")
+            if isinstance(value, ast.Constant) and value.value is None:
+                v = "Load.Y.null"
+            else:
+                v, vt = self.expr(value, env)
+                if vt != "Y":
+                    self.err(tgt, f"store of {vt} into a YAML dictionary")
+            d = tgt.value.id
+            return f"{pad}let {d} := PyRt.ymapSet {d} {pysrc_str(key)} {v}\n" + nxt(env)
+        if isinstance(tgt, ast.Name) and isinstance(value, ast.Constant) and isinstance(value.value, str):
+            return nxt(env)                                   # a label used in messages only
         if isinstance(value, ast.Call) and ast.unparse(value.func) == "eval" and len(value.args) == 1:
             # eval of an address key: the documented `(int, int)` spelling parses, anything else raises (rejection)
             k, kt = self.expr(value.args[0], env)
@@ -264,7 +344,33 @@ class TrLoad(TrAct):
     def fall_value(self, env):
         return "true"
 
+    def call_stmt(self, c, env, nxt, ind):
+        pad = "  " * ind
+        f = c.func
+        if isinstance(f, ast.Attribute) and isinstance(f.value, ast.Name) and f.value.id == "self" \
+                and self.w.lookup("Loader", f.attr) is not None:
+            # a validator called for its exception: returning normally is the only way on
+            o, _ = self.expr(c, env)
+            fail = ".ret false" if getattr(self, "loop", None) is not None else "false"
+            return f"{pad}if !{o} then\n{pad}  {fail}\n{pad}else\n" + self.block_after(nxt, env, ind)
+        return super().call_stmt(c, env, nxt, ind)
+
     def for_stmt(self, st, rest, env, k, ind):
+        # a loop over one of the module's key tables (name -> type) is unrolled
+        if isinstance(st.iter, ast.Call) and isinstance(st.iter.func, ast.Attribute) and st.iter.func.attr == "items" \
+                and isinstance(st.iter.func.value, ast.Name) and st.iter.func.value.id in self.w.tables \
+                and isinstance(st.target, ast.Tuple) and len(st.target.elts) == 2:
+            kn, tn = st.target.elts[0].id, st.target.elts[1].id
+            table = self.w.tables[st.iter.func.value.id]
+
+            def unroll(i, env_, ind_):
+                if i == len(table):
+                    return self.block(rest, env_, k, ind_)
+                env_i = dict(env_)
+                env_i[kn] = ("strconst", table[i][0])
+                env_i[tn] = ("pytype", table[i][1])
+                return self.block(st.body, env_i, lambda e2, i2: unroll(i + 1, e2, i2), ind_)
+            return unroll(0, env, ind)
         it, ity = self.expr(st.iter, env)
         if ity in ("YList", "Y"):
             if ity == "Y":
@@ -301,7 +407,12 @@ class TrLoad(TrAct):
             ps += f" ({p} : {LEAN_TYPE[t]})"
         self.loop = None
         self.known_lists = set()
+        self.known_maps = set()
         self.assert_exits = True
+        for x in ast.walk(self.node):
+            if isinstance(x, ast.Assert) and isinstance(x.test, ast.Call) and ast.unparse(x.test.func) == "isinstance" \
+                    and ast.unparse(x.test.args[1]) == "dict":
+                self.known_maps.add(ast.unparse(x.test.args[0]))
         # `if type(f) != list: return False` / `assert isinstance(row, list)` make the value a known list for what follows
         for x in ast.walk(self.node):
             if isinstance(x, ast.If) and isinstance(x.test, ast.Compare) and isinstance(x.test.ops[0], ast.NotEq) \
@@ -371,6 +482,23 @@ def translate_loader():
     emit(mk("_is_valid_host_address", ["subnets"], ["NatList"], [("subnet_ID", "Y"), ("host_ID", "Y")]))
     emit(mk("_validate_scan_cost", [], [], [("scan_name", "Unit"), ("scan_cost", "Y")]))
     emit(mk("_is_valid_firewall_setting", ["services"], ["YList"], [("f", "Y")]))
+    import translators as T_
+    w.tables = {"EXPLOIT_KEYS": [(k, T_.tyname(t)) for k, t in loader_mod.EXPLOIT_KEYS.items()],
+                "PRIVESC_KEYS": [(k, T_.tyname(t)) for k, t in loader_mod.PRIVESC_KEYS.items()]}
+    w.ukeys = {k: v for k, v in vars(__import__("nasim.scenarios.utils", fromlist=["x"])).items() if k.isupper() and isinstance(v, str)}
+
+    def ylit(v):
+        return f'(Load.Y.str "{v}")' if isinstance(v, str) else f"(Load.Y.int {int(v)})"
+    out.append("/-- `nasim/scenarios/loader.py`: `VALID_ACCESS_VALUES` -/\ndef VALID_ACCESS_VALUES : List Load.Y := ["
+               + ", ".join(ylit(v) for v in loader_mod.VALID_ACCESS_VALUES) + "]\n")
+    out.append("/-- `nasim/scenarios/loader.py`: `ACCESS_LEVEL_MAP[x]` (a missing key is a `KeyError`) -/\n"
+               "def ACCESS_LEVEL_MAP (x : Load.Y) : Load.Y :=\n"
+               + "".join(f"  if x.pyEq {ylit(k)} then {ylit(v)} else\n" for k, v in loader_mod.ACCESS_LEVEL_MAP.items())
+               + "  Load.Y.null\n")
+    emit(mk("_validate_single_exploit", ["services", "os"], ["YList", "YList"], [("e_name", "Y"), ("e", "Y")]))
+    emit(mk("_validate_exploits", ["services", "os"], ["YList", "YList"], [("exploits", "YMap")]))
+    emit(mk("_validate_single_privesc", ["processes", "os"], ["YList", "YList"], [("pe_name", "Y"), ("pe", "Y")]))
+    emit(mk("_validate_privescs", ["processes", "os"], ["YList", "YList"], [("privescs", "YMap")]))
     emit(mk("_validate_sensitive_hosts", ["subnets", "num_hosts"], ["NatList", "Nat"], [("sensitive_hosts", "YMap")]))
     emit(mk("_contains_all_required_firewalls", ["topology"], ["TopoL"], [("firewall", "YMap")]))
     emit(mk("_validate_firewall", ["topology", "services"], ["TopoL", "YList"], [("firewall", "YMap")]))
